@@ -36,6 +36,43 @@ def terminal_ui(ctx, rep):
     rep.extra['prompt_scripts'] = ctx.pick(300, 3000)
 
 
+def process_prompts(ctx, rep):
+    """file mode as a real process: after the log is read - whatever it held: messages, only chatter, nothing at all - the
+    prompt is issued once per command until the first resume / quit"""
+    import os, subprocess, tempfile, shutil
+    import e2, tlc
+    r = ctx.rnd
+    LOGS = {'ordinary': '[1000.000]  -> wl_display@1.get_registry(new id wl_registry@2)\n[1000.100] wl_registry@2.global(1, "wl_compositor", 4)\n',
+            'chatter-only': 'starting up\nno wayland here\n', 'empty': '', 'blank-lines': '\n\n'}
+    WORDS = ['help', 'list', 'filter wl_surface', 'breakpoint !', 'connection', 'bogus', 'matcher x', 'l ~ 2']
+    STOP = ['resume', 'quit', 'r', 'q']
+    tmp = tempfile.mkdtemp(prefix='c10-', dir=os.path.join(tlc.OUT, 'tmp'))
+    try:
+        n = 0
+        for name, text in LOGS.items():
+            log = os.path.join(tmp, name + '.log')
+            open(log, 'w').write(text)
+            for k in range(ctx.pick(2, 8)):
+                script = [r.choice(WORDS) for _ in range(r.randint(0, 4))] + [r.choice(STOP)] + [r.choice(WORDS + STOP) for _ in range(r.randint(0, 2))]
+                want = next(i for i, w in enumerate(script) if w in STOP) + 1
+                try:
+                    p = subprocess.run([e2.PY, os.path.join(e1.REPO, 'main.py'), '-C', '-l', log], cwd=e1.REPO, env=e2.ENV, input=('\n'.join(script) + '\n').encode(),
+                                       stdout=subprocess.PIPE, stderr=subprocess.PIPE, timeout=60)
+                except subprocess.TimeoutExpired:
+                    rep.violation('process-prompt:hang', 'main.py -l %s does not come back for the commands %r' % (name, script), {'kind': 'prompt', 'script': script})
+                    continue
+                n += 1
+                rep.case('process-prompt:%s:%s' % (name, '|'.join(script)))
+                got = p.stdout.decode('utf-8', 'replace').count(e2.PROMPT)
+                if got != want or p.returncode != 0:
+                    rep.violation('process-prompt-count:' + name, 'main.py -l <%s log> issued the prompt %d times (exit status %s) for the commands %r; the first '
+                                  'resume/quit is number %d: %s' % (name, got, p.returncode, script, want, p.stderr.decode('utf-8', 'replace')[-200:]),
+                                  {'kind': 'prompt', 'script': script})
+        rep.extra['process_prompt_sessions'] = n
+    finally:
+        shutil.rmtree(tmp, ignore_errors=True)
+
+
 def gdb_walk(ctx, rep, k):
     """The real plugin in the real gdb: a scenario of closures on several connections runs under a breakpoint matcher; a gdb
     command file probes where the program is halted (`print g_current`), types commands there and resumes.  The recorded
@@ -183,6 +220,7 @@ def run(ctx):
         'scripted input: the number of prompts must equal the position of the first resume/quit.',
         sessions(ctx), relevant('C10'))
     terminal_ui(ctx, rep)
+    process_prompts(ctx, rep)
     gdb_walks(ctx, rep)
     return rep
 
